@@ -71,20 +71,28 @@ class NtTriplesYielder(BaseTriplesYielder):
         return index_sub + (len(target_str) - len(target_substring))
 
     def _look_for_last_index_of_bnode_token(self, target_str, first_index):
-        target_substring = target_str[first_index:]
-        index_sub = target_substring.find(" ")
-        return index_sub + (len(target_str) - len(target_substring)) - 1
+        return self._look_for_last_index_before_blank(target_str, first_index)
 
     def _look_for_last_index_of_unlabelled_number_token(self, target_str, first_index):
-        target_substring = target_str[first_index:]
-        index_sub = target_substring.find(" ")
-        return index_sub + (len(target_str) - len(target_substring)) - 1
+        return self._look_for_last_index_before_blank(target_str, first_index)
+
+    def _look_for_last_index_before_blank(self, target_str, first_index):
+        """
+        Index of the last char of a token that starts at first_index and ends at the next blank.
+        When there is no blank left, the token ends right before the final dot of the statement.
+        """
+        index = first_index
+        while index < len(target_str) and not target_str[index].isspace():
+            index += 1
+        if index == len(target_str) and target_str[index - 1] == ".":
+            index -= 1
+        return index - 1
 
     def _look_for_last_index_of_literal_token(self, target_str, first_index):
         target_substring = target_str[first_index:]
 
         if there_is_arroba_after_last_quotes(target_substring):  # String labelled with language
-            return target_substring[target_substring.rfind("@"):].find(" ") - 1 + target_str.rfind("@")
+            return self._look_for_last_index_before_blank(target_str, target_str.rfind("@"))
         elif "^^" not in target_substring:  # Not typed
             success = False
             index_of_quotes = 1
@@ -97,7 +105,7 @@ class NtTriplesYielder(BaseTriplesYielder):
                 index_of_quotes = index_of_second_quotes
             return index_of_quotes + (len(target_str) - len(target_substring))
         else:  # Typed
-            return target_substring[target_substring.find("^^"):].find(" ") - 1 + target_str.find("^^")
+            return self._look_for_last_index_before_blank(target_str, target_str.find("^^"))
 
     @property
     def yielded_triples(self):
